@@ -133,9 +133,9 @@ def django_rawsql_used(context):
                 sql = context.node.args[0]
             else:
                 kwargs = keywords2dict(context.node.keywords)
-                sql = kwargs["sql"]
+                sql = kwargs.get("sql")
 
-            if not isinstance(sql, ast.Str):
+            if sql is not None and not isinstance(sql, ast.Str):
                 return bandit.Issue(
                     severity=bandit.MEDIUM,
                     confidence=bandit.MEDIUM,
